@@ -33,7 +33,7 @@ CLAIMED["C07"] = ("exploration", "exhaustive crossing of (Pmin,Preq) x exponent 
 CLAIMED["C08"] = ("exploration", "crossed enumeration of leak site x area/Cd x activity window x demand model x pressure regime x add/remove history x step, every run on WNTRSimulator with 'ALL' reporting; orifice-law, window, balance and never-leaked differential oracles",
     "every combination of the leak alphabets (junction and tank sites, simultaneous leaks, on/off-grid windows, negative pressure, add/remove/add histories) is simulated and every reported step is judged against Cd*A*sqrt(2gp), the activity window and the node balance",
     "areas/coefficients outside the alphabet and leaks on isolated nodes are not covered")
-CLAIMED["C14"] = ("model_checking", "explicit-state breadth-first search over edit histories of the real WaterNetworkModel (4 start states, depth 3-4 quick / 4-6 thorough), canonical-state deduplication, plain-dict reference model deciding enabledness, expected refusal and every public view in every state",
+CLAIMED["C14"] = ("model_checking", "explicit-state breadth-first search over edit histories of the real WaterNetworkModel (5 start states, depth 3-4 quick / 4-6 thorough), canonical-state deduplication, plain-dict reference model deciding enabledness, expected refusal and every public view in every state",
     "every well-formed history of add/remove/reassign operations over a 3-node/2-link/pattern/3-curve/source/control alphabet up to the depth bound is executed on the real model; in every reached state all name lists, counts, typed iterators, describe(), link end nodes (incl. object identity), get_links_for_node, to_graph and the usage/orphaned/unused records of the node, pattern and curve registries are compared with a reference; removals of in-use elements must be refused and leave every view unchanged",
     "histories longer than the bound, more than 3 nodes / 2 links, and ill-formed calls (duplicate names, dangling references) are not covered")
 CLAIMED["C15"] = ("model_checking", "exhaustive enumeration of expression trees (<=2 operators over the full operator/leaf alphabet, 3-4 over reduced ones) and of conditional constraints on a value grid against a dual-number reference, plus explicit-state BFS over add/remove/set-value/set_structure histories of a constraint pool with shared leaves and sub-expressions",
